@@ -127,8 +127,13 @@ def _new_var(fi):
 def rule_D1(ctx):
     prog = ctx.prog
     ctx.rule("D1", "Tree.to_dict and Tree.from_dict agree key by key, and each key is restored into the slot it was taken from", 14)
+    import copy as _copy
+
+    from ..astutil import inline_new_helpers
+
     w = prog.fn("Tree.to_dict")
-    r = prog.fn("Tree.from_dict")
+    r = _copy.copy(prog.fn("Tree.from_dict"))
+    r.node = inline_new_helpers(prog, r)  # a restore split over private helpers newer than the rules is read as one body
     tree_cls = prog.cls("tree.tree.Tree")
     slots = set(tree_cls.slots or ())
     if not slots:
@@ -220,6 +225,9 @@ def rule_D1(ctx):
                         feeds.append(s.value)
                         if isinstance(s.value, ast.Name):
                             aliases.add(s.value.id)
+                # a local bound *from* the slot (`graph = new._graph`) names the same object
+                if len(s.targets) == 1 and isinstance(s.targets[0], ast.Name) and isinstance(s.value, ast.Attribute) and s.value.attr == slot and isinstance(s.value.value, ast.Name) and s.value.value.id == new:
+                    aliases.add(s.targets[0].id)
         for s in ast.walk(r.node):
             if isinstance(s, ast.Call) and isinstance(s.func, ast.Attribute):
                 recv = s.func.value
